@@ -16,7 +16,7 @@ NAMES = {"PlanOrExecError", "NotConverged", "SecondPlanNotEmpty"}
 
 def run(tier):
     v = vf.Verdict("C01", tier, "model_checking")
-    viols, full, n, info = engine.run_engine(tier, cli_every=12 if tier == "quick" else 3)
+    viols, full, n, info = engine.run_engine(tier, cli_every=40 if tier == "quick" else 4)
     bad = engine.report(v, viols, full, NAMES)
     cviols, cfull = info.pop("cli", ([], []))
     cbad = set()
